@@ -237,14 +237,13 @@ theorem rep_rounds (initial : Bool) : (fuel : Nat) → (m : Mach U) → (backup 
               exact SameReport.trans ⟨rfl, rfl⟩ (rep_rounds true fuel _ _ _)
         · exact h1.trans (SameReport.trans ⟨rfl, rfl⟩ (rep_rounds initial fuel _ _ _))
 
-theorem rep_foldl_apply : (l : List (Transition × Nat)) → (m : Mach U) →
-    SameReport m (l.foldl (fun (m : Mach U) (x : Transition × Nat) => m.applyRequest x.1 x.2) m)
-  | [], m => SameReport.refl m
-  | x :: rest, m => (rep_applyRequest m x.1 x.2).trans (rep_foldl_apply rest _)
+theorem rep_applyRequestNoPin (m : Mach U) (t : Transition) : SameReport m (m.applyRequestNoPin t) := by
+  unfold Mach.applyRequestNoPin SameReport
+  cases t.kind <;> simp only [] <;> (repeat' split) <;> exact ⟨rfl, rfl⟩
 
-theorem rep_applyRequests (m : Mach U) (ts : List Transition) : SameReport m (m.applyRequests ts).1 := by
-  rw [applyRequests_staged]
-  exact SameReport.trans ⟨rfl, rfl⟩ (rep_foldl_apply _ _)
+theorem rep_applyRequests (m : Mach U) (ts : List Transition) : SameReport m (m.applyRequests ts).1 :=
+  applyRequests_inv (P := fun m' => SameReport m m') (fun m' t i h => h.trans (rep_applyRequest m' t i))
+    (fun m' t h => h.trans (rep_applyRequestNoPin m' t)) m ts ⟨rfl, rfl⟩
 
 theorem finishStep_refreshed (m0 m : Mach U) (c : List Transition) (ha : m.activity = m0.activity) :
     Refreshed m0 (stepTailRc m c) := by
